@@ -458,6 +458,8 @@ def check(ctx):
     run_rules(ctx, prog)
     from . import c08
     c08.expiry_contract(ctx, prog)     # "an expired deadline yields the timeout error" needs the deadline to be reported as expired
+    from . import c01
+    c01.wait_rules(ctx, prog)          # "run returns the child's exit status": a status is only ever the one waitpid delivered (C01.R3)
     from . import c09
     c09.poll_rules(ctx, prog)          # ... and poll to report it at once, as the only event, whatever else is pending (C09.V3d)
     from .. import cxxrules
